@@ -133,6 +133,7 @@ type memStream struct {
 	brk          chan struct{} // closed when the transport is torn down (shared by both ends)
 	gotFIN       bool          // a FIN packet was delivered to this end
 	onSend       func(n int)   // hook called before the n-th SendMsg
+	reqs         []uint32      // ids of the REQ packets sent through this end
 }
 
 func newStreamPair(ctx context.Context, capacity int) (*memStream, *memStream) {
@@ -164,6 +165,9 @@ func (s *memStream) SendMsg(m interface{}) error {
 	case <-s.brk:
 		return errBroken
 	default:
+	}
+	if pk := m.(*types.Packet); pk.Type == types.PACKET_REQ {
+		s.reqs = append(s.reqs, pk.ID)
 	}
 	select {
 	case s.out <- copyPacket(m.(*types.Packet)):
